@@ -77,7 +77,21 @@ fn sweep<K: Key + Debug + Ord + Default>(name: &str, tier: &str, seed: u64, widt
     }
 }
 
-fn serde_check<K: Key + Debug + serde::Serialize + serde::de::DeserializeOwned>(name: &str, width: u32, tier: &str, seed: u64) {
+/// "Serialising a key and reading it back yields the same key" wherever a key can stand in a document: as a map key
+/// (JSON writes it as a quoted string), inside Option / Vec / tuple, and through `serde_json::Value`.
+fn other_positions<K: Key + Debug + serde::Serialize + serde::de::DeserializeOwned + std::hash::Hash>(k: K) -> bool {
+    use std::collections::HashMap;
+    let mut m: HashMap<K, u8> = HashMap::new();
+    m.insert(k, 7);
+    let as_map_key = serde_json::to_string(&m).ok().and_then(|t| serde_json::from_str::<HashMap<K, u8>>(&t).ok()).map_or(false, |b| b.len() == 1 && b.get(&k) == Some(&7));
+    let nested = (Some(k), vec![k, k], (k, 1u8));
+    let as_nested = serde_json::to_string(&nested).ok().and_then(|t| serde_json::from_str::<(Option<K>, Vec<K>, (K, u8))>(&t).ok()).map_or(false, |b| b == nested);
+    let via_value = serde_json::to_value(k).ok().and_then(|v| serde_json::from_value::<K>(v).ok()) == Some(k);
+    let map_via_value = serde_json::to_value(&m).ok().and_then(|v| serde_json::from_value::<HashMap<K, u8>>(v).ok()).map_or(false, |b| b.get(&k) == Some(&7));
+    as_map_key && as_nested && via_value && map_via_value
+}
+
+fn serde_check<K: Key + Debug + serde::Serialize + serde::de::DeserializeOwned + std::hash::Hash>(name: &str, width: u32, tier: &str, seed: u64) {
     let maxraw: u128 = if width == 64 { u64::MAX as u128 } else { (1u128 << width) - 1 };
     let mut raws: Vec<u128> = vec![0, 1, 2, 3, 254, 255, 256, 257, 65534, 65535, 65536, 65537, (1u128 << 32) - 2, (1u128 << 32) - 1, 1u128 << 32, (1u128 << 32) + 1,
         u64::MAX as u128 - 1, u64::MAX as u128, maxraw - 1, maxraw, maxraw + 1];
@@ -86,6 +100,7 @@ fn serde_check<K: Key + Debug + serde::Serialize + serde::de::DeserializeOwned>(
     for _ in 0..(if tier == "quick" { 2000 } else { 200_000 }) { let r = splitmix(&mut s) as u128; raws.push(r % (maxraw + 1)); raws.push(r); }
     raws.sort_unstable(); raws.dedup();
     let (mut ok, mut bad) = (0usize, Vec::new());
+    let mut positions = 0usize;
     for raw in raws {
         if raw > u64::MAX as u128 { continue; }
         let text = format!("{}", raw);
@@ -94,7 +109,9 @@ fn serde_check<K: Key + Debug + serde::Serialize + serde::de::DeserializeOwned>(
         match parsed {
             Ok(k) => {
                 let back = serde_json::to_string(&k).unwrap();
-                if !expect_ok || back != text || k.into_usize() as u128 != raw - 1 || K::try_from_usize(k.into_usize()) != Some(k) { bad.push(raw); } else { ok += 1; }
+                if !expect_ok || back != text || k.into_usize() as u128 != raw - 1 || K::try_from_usize(k.into_usize()) != Some(k) { bad.push(raw); }
+                else if positions < 400 && !other_positions(k) { positions += 1; bad.push(raw); }
+                else { positions += 1; ok += 1; }
             }
             Err(_) => if expect_ok { bad.push(raw); } else { ok += 1; },
         }
